@@ -9,8 +9,12 @@ CFG = {'lean_modules': ['ObiVerif.Props.C07'],
          'setqual/setfeat/scratch, lengths 0,1,299..301,1024,1025, from=to, to=len, full circular windows, 4-28 steps quick, 100-160 steps for 1 in 10 in thorough) '
          'compared with the heap model run under three pool policies + value semantics; mutator histories (every mutator of BioSequence: Write/WriteByte/'
          'WriteString/Clear/Join(inplace)/SetQualities/WriteQualities/SetAttribute(pairing_mismatches)/SetId/Sequence()[i]=) where after EVERY step the reverse '
-         'complement of every live object is asked again and compared with the naive one of its current bases, qualities and pairing_mismatches; non-trivial = distinct well-formed case whose input '
-         'byte survives lower-casing',
+         'complement of every live object is asked again and compared with the naive one of its current bases, qualities and pairing_mismatches; whole objects '
+         '(rcw/subw: bases + qualities + 0-4 pairing_mismatches entries, keys well-formed, longer, exactly 13 bytes, symbols outside the alphabet, shorter than 13 '
+         'bytes, colliding; positions inside and outside; linear, circular and wrapping windows) compared with Model/SeqAnnot.lean, with the oracles rc(rc x)=x and '
+         'rc(sub x)=sub\'(rc x) on the whole object evaluated on the real code; joinrc (Join then ReverseComplement, receiver with/without qualities); annkinds (Copy / '
+         'rc / sub / circular sub of an object carrying 14 kinds of annotation values: every value of the result edited in place, result recycled, buffers '
+         're-allocated, both directions); non-trivial = distinct well-formed case whose input byte survives lower-casing',
  'technique': 'Lean 4 theorems (table lemmas by decide over tables regenerated from the source; algebraic laws by induction) + differential correspondence of '
               'the model with the real obiseq methods, including object histories + naive-implementation oracle',
  'level_text': 'Complement involution and agreement of the three complement tables are decided over tables regenerated from /repo on every run; rc∘rc = id, '
@@ -23,20 +27,39 @@ CFG = {'lean_modules': ['ObiVerif.Props.C07'],
                '(an operation leaves every object other than its target unchanged: bases, qualities, features, annotations), heap_no_alias (whole histories). '
                'The model is tied to ReverseComplement / Subsequence / Copy / Recycle / SetQualities / SetFeatures / GetSlice / RecycleSlice by running both on '
                'the same lines, object histories included, with recycled buffers poisoned, backing arrays of all live slices compared pairwise after every step '
-               '(hook VerifRawSlices) and the rc law re-evaluated on the real code on the current content of every live object after every step.',
- 'level_note': 'Trusted: Lean kernel; transcriptions Model/SeqOps.lean and Model/SeqHeap.lean; extractor (literals only). Heap model: the frame/invariant '
-               'part is proved for all histories and all pool decisions; the EFFECT of each operation on its target (heap step = value semantics vstep) is NOT '
-               'proved, it is executed: the driver runs the heap under three pool policies and the value semantics and prints MODEL-DIVERGES when they differ. '
-               'Well-behaved histories only (a name is bound once; a recycled object is never used again: such lines are bad-op on both sides). The heap model '
-               'assumes qualities as long as the sequence (enforced on new/setqual). The model describes SetQualities/SetFeatures AS REPAIRED '
-               '(notes/patches/C07-pool-keeps-address-of-live-field.diff); Heap.setFeaturesOld keeps the old code for reference, no counterexample theorem is '
-               'proved about it (the failing history is in the harness corpus). Concurrency itself (several goroutines) is not modelled: the oracle `ch` '
-               'covers any item or none being returned by Get, which is what another goroutine can cause, but not a data race on one sequence. Mutator '
-               'histories (`mut`) are oracle-only (the model answers ok). Join does not extend qualities (ReverseComplement then panics): outside the '
-               'property statement, Join is only exercised on receivers without qualities. _revcmpMutation key rewriting, features under rc/sub '
-               '(not transformed by the code) and deep copy of non-map annotation kinds are tied by correspondence / not covered.',
- 'trusted_base': LEAN_TB + ['extract/ (go/ast literal extraction of _revcmpDNA, revcompnuc, LX_BIO_CDNA_ALPHA)', 'naive reverse complement / window oracles in the harness', 'pkg/obiseq/verif_hooks.go (VerifRawSlices)'],
+               '(hook VerifRawSlices) and the rc law re-evaluated on the real code on the current content of every live object after every step. '
+               'ROUND 2: (1) REFINEMENT PROVED: heap_step_refines / heap_run_refines (Lemmas/SeqHeapRefine.lean): for every operation, every pool/append decision and '
+               'every heap satisfying the invariant, the outcome of SeqHeap.step observed on EVERY object (bases, qualities, features, annotations; or the error) equals '
+               'SeqHeap.vstep on the previous observation; whole histories by induction (errors included), so value-level laws hold of the heap transcription: heap_rc_rc, '
+               'heap_rc_sub (cut-then-rc = rc-then-cut-mirrored, qualities included) for all histories and pool decisions. Recycle in the heap model now follows the '
+               'current Go code (slices moved to locals whose addresses are pooled: the arrays of a recycled object ARE handed out again). (2) whole-object model '
+               'Model/SeqAnnot.lean (bases, qualities, pairing_mismatches as a map, other annotations): cc_fixed_iff (over all 256 bytes: double complement fixes exactly '
+               'the 19-symbol alphabet), revcmpKey_involutive_iff_alphabet (key rewriting is an involution exactly on keys >= 13 bytes whose symbols are in the alphabet), '
+               'revcmpKey_panics_iff (< 13 bytes), revcmpKey_no_collision, rcW_rcW (rc(rc x) = x on bases, qualities, keys and positions, no panic), subseqPos_revcmpPos '
+               '(position transforms of cut-then-mirror and mirror-then-cut agree). (3) setFeaturesOld_breaks: counterexample theorem for the OLD SetFeatures (pool holds '
+               'the address of the live field, invariant lost, next NewBioSequence writes into b.feature: "ttttttttrce 1..8"). (4) join_then_rc_panics (known finding).',
+ 'level_note': 'Trusted: Lean kernel; transcriptions Model/SeqOps.lean, Model/SeqHeap.lean, Model/SeqAnnot.lean; extractor (literals only). Heap model: invariant, frame AND '
+               'effect of every operation are now proved for all histories and all pool decisions (step_refines: heap step = value semantics vstep on every object); the '
+               'driver still runs the heap under three pool policies + vstep and prints MODEL-DIVERGES (now a redundant execution of the theorem). Well-behaved histories '
+               'only (a name is bound once; a recycled object is never used again: such lines are bad-op on both sides). The heap model describes SetQualities/SetFeatures/'
+               'Recycle AS REPAIRED (notes/patches/C07-pool-keeps-address-of-live-field.diff, C05-pool-field-pointer.diff); Heap.setFeaturesOld / recycleObjOld keep the old '
+               'code; setFeaturesOld_breaks is the counterexample theorem. In the heap model ReverseComplement/Subsequence keep the annotations as they are (map-valued '
+               'annotations only); the rewriting of pairing_mismatches is in the separate whole-object VALUE model Model/SeqAnnot.lean (tied by rcw/subw cases), not in the '
+               'heap histories. STILL PARTIAL: rc(sub x) = sub\'(rc x) on the whole object is proved for bases+qualities (vrun_rc_sub/heap_rc_sub, linear windows) and '
+               'for the position transform of one entry (subseqPos_revcmpPos); the statement for the whole pairing_mismatches map (filter/map over the entries, the '
+               'empty-map case) and for wrapping circular windows is NOT proved, it is an oracle on the real code (subw.rc-mirror, linear + circular + wrapping). '
+               'Copy independence for the non-map annotation kinds (nested maps, slices, StatsOnValues, arrays, map[string]interface{}) is oracle-only (annkinds); in the '
+               'models annotations are values. Ill-formed keys: < 13 bytes = panic (modelled, proved); symbols outside the alphabet = rewritten but not restored '
+               '(proved); two keys rewritten to the same key = result depends on Go map order (both sides print `collision`). subW assumes qualities absent or as long as '
+               'the sequence. Concurrency itself (several goroutines) is not modelled: the oracle `ch` covers any item or none being returned by Get, which is what another '
+               'goroutine can cause, but not a data race on one sequence. Mutator histories (`mut`) and annkinds are oracle-only (the model answers ok). Join '
+               '(pkg/obiseq/join.go is an anchored file, so Join is IN SCOPE): it does not extend the qualities, ReverseComplement then panics: reported as known finding '
+               'C07-join-qualities (sig join.qualities-not-extended, joinrc cases; Lean join_then_rc_panics); in `mut` histories Join is still only asked of receivers '
+               'without qualities. Features are not transformed by rc/sub in the code (Copy/rc keep them, Subsequence drops them): modelled as such.',
+ 'trusted_base': LEAN_TB + ['extract/ (go/ast literal extraction of _revcmpDNA, revcompnuc, LX_BIO_CDNA_ALPHA)', 'naive reverse complement / window oracles in the harness', 'pkg/obiseq/verif_hooks.go (VerifRawSlices)', 'whole-object oracles rcw.involution / subw.rc-mirror / annkinds.* in the harness'],
  'modelled': 'pkg/obiseq revcomp.go (nucComplement, ReverseComplement loop, _revcmpMutation), subseq.go (Subsequence, _subseqMutation), value semantics of '
-             'Copy/Recycle',
+             'Copy/Recycle; heap model of pool.go + biosequence.go (GetSlice/RecycleSlice/CopySlice, Copy, Recycle, SetQualities, SetFeatures, Write) proved to implement the value '
+             'semantics; whole-object value model (Model/SeqAnnot.lean) of ReverseComplement+_revcmpMutation, Subsequence+_subseqMutation on the pairing_mismatches map, Join',
  'assumptions': ['circular windows are given with to <= len (the code reduces larger values modulo len)',
-                 'heap model: qualities have the length of the sequence; no use after Recycle; one goroutine per sequence']}
+                 'heap model: no use after Recycle; one goroutine per sequence (the refinement theorem itself needs no assumption on the qualities; heap_rc_sub and the tie with the Go code need qualities absent or as long as the sequence)',
+                 'whole-object laws: keys of pairing_mismatches at least 13 bytes long with symbols in the alphabet, positions within 1..len']}
